@@ -111,6 +111,40 @@ PREFUNCS = {
     'pyfloat': lambda x: float(x) if isnum(x) else x,
 }
 
+# functions mapped over a SERIES column (`col @ f`, map_(f, col): f receives one row, a float64 array, and returns a
+# series) to DERIVE the column the judged operation is applied to directly.  What f returns is not a float64 array for
+# most of them: bool / int64 / float32 arrays, Python lists of floats / ints / bools -- the mapped column must hold
+# f(cell_i) as numbers (True = 1.0) and behave like any series column in arithmetic.  (name -> (f, depth of the result))
+def _rank(a):
+    return np.argsort(np.argsort(a)) + 1
+
+
+SFUNCS = {
+    'gt': (lambda a: a > 0.5, lambda d: d),                                             # bool array
+    'isnan': (lambda a: np.isnan(a), lambda d: d),                                      # bool array
+    'rank': (_rank, lambda d: d),                                                       # int64 array, 1 .. depth
+    'sign_int': (lambda a: np.where(a > 0, 1, -1), lambda d: d),                        # int64 array
+    'int8': (lambda a: np.where(a > 0, 3, 2).astype(np.int8), lambda d: d),             # int8 array
+    'f32': (lambda a: a.astype(np.float32), lambda d: d),                               # float32 array
+    'third32': (lambda a: (a / 3).astype(np.float32), lambda d: d),                     # float32 values that are not float16 / short
+    'list2': (lambda a: list(a * 2), lambda d: d),                                      # list of NumPy floats
+    'pyfloats': (lambda a: [float(v) + 0.5 for v in a], lambda d: d),                   # list of Python floats
+    'pyints': (lambda a: [int(v) if abs(v) < 1e9 else 7 for v in np.nan_to_num(a)], lambda d: d),   # list of Python ints
+    'pybools': (lambda a: [bool(v > 0) for v in a], lambda d: d),                       # list of Python bools
+    'tuple': (lambda a: tuple(float(v) for v in a), lambda d: d),
+    'double': (lambda a: a * 2, lambda d: d),                                           # float64 array
+    'neg': (lambda a: -a, lambda d: d),
+    'half_depth': (lambda a: a[:len(a) // 2 + 1] > 0, lambda d: d // 2 + 1),            # bool array, another depth
+    'twice_depth': (lambda a: np.concatenate([_rank(a), _rank(a)]), lambda d: 2 * d),   # int array, another depth
+}
+SFUNCS_SAME_DEPTH = sorted(k for k in SFUNCS if k not in ('half_depth', 'twice_depth'))
+# Finding on the UNCHANGED tree (reported, not decided): `col @ f` / map_(f, col) on a DETACHED SLICE of a series
+# column (dm.s[1:3], dm.s[[4, 0]]) of a longer table returns a series column with as many rows as the TABLE and the
+# table's row ids, f(cell_i) sitting in the first len(col) rows and NaN below (_SeriesColumn._map builds the result
+# from self.dm).  Derived series columns are therefore made from whole columns of the (re-ordered) table and sliced
+# afterwards; mapping a detached slice is kept out of the default stream.
+INCLUDE_PENDING_SERIES_MAP_SLICE = False
+
 
 def plain(v):
     """the Python number a NumPy scalar stands for (cells of a derived MixedColumn)"""
@@ -213,6 +247,15 @@ class C13:
             'col @ f, map_, SeriesColumn o x) is assigned back ON THE SAME TABLE under the name of the column operand, of the operand '
             'column, or of a second name (dm.b = dm.c) of one of them, while the harness holds the operand column objects: the rows '
             'read the result (judged in Coq like dm.r = result) and the held objects / the other name still read the original cells. '
+            'Family derived_series: the operation applied directly to a DERIVED SeriesColumn that was never assigned to the table -- '
+            'the result of col @ f / map_(f, col) with f returning bool / int64 / int8 / float32 arrays, Python lists of floats / ints / '
+            'bools, tuples, arrays of another depth (each mapped column is first checked on the Python side to have the rows and row '
+            'ids of its source and to hold f(cell_i)), of another operator, of series.endlock / window / downsample, of a sample slice, '
+            'then sliced at column level -- as LEFT and RIGHT operand, 7 operators, with scalar / per-row / per-sample / matrix / '
+            'Float- / IntColumn operands and with ANOTHER SERIES COLUMN of the table (plain, derived the same way, or the very same '
+            'object: mapped + mapped, mapped - mapped, rank ** -1), judged by the same Coq terms from the samples read from the '
+            'derived objects.  In family `derived` the operand COLUMN of a plain column is derived too (col + (other @ np.abs), '
+            'NumPy-scalar cells on the right-hand side). '
             'non-trivial = the result differs from the source cells; distinct by full input')
     trusted_base = [
         'Coq 8.16.1 kernel (coqc; vm_compute for evaluating cases; no native_compute)',
@@ -248,7 +291,11 @@ class C13:
         'fastnumbers is not installed',
         'NumPy scalars / arrays as LEFT operand are outside the claim (NumPy, not the column, handles them)',
         'operands-unchanged and "result is a new object" are observed on the Python side (pyfail), by-value model in Coq',
-        'SeriesColumn: scalar / per-row / per-sample / full-matrix operands of numbers; NumPy broadcasting is hand-modelled',
+        'SeriesColumn: scalar / per-row / per-sample / full-matrix operands of numbers and other series columns; NumPy broadcasting '
+        'is hand-modelled; the samples of a (derived) series column are read from its buffer as float(sample): that the buffer of a '
+        'column made by col @ f / map_ is float64 is PINNED (gen_arith.py: _SeriesColumn._map writes every f(cell) through newcol[i] = a) '
+        'and exercised by family derived_series; col @ f on a DETACHED SLICE of a series column is kept out (pending finding, '
+        'INCLUDE_PENDING_SERIES_MAP_SLICE)',
     ]
 
     # ---- building the table ---------------------------------------------
@@ -284,6 +331,9 @@ class C13:
                 ocol = ocol[list(order[1])]
         if inp.get('pre'):
             col = self._apply_pre(col, inp['pre'])
+        if ocol is not None and inp['operand'].get('pre'):
+            # the OTHER operand is a derived column as well (col + (other @ f)), not assigned in between
+            ocol = self._apply_pre(ocol, inp['operand']['pre'])
         return col, ocol
 
     def _apply_pre(self, col, pre):
@@ -311,7 +361,7 @@ class C13:
             vs = [pyobs.dec(v) for v in opd['vs']]
             obj = tuple(vs) if opd.get('as') == 'tuple' else list(vs)
             return obj, vs, '(OSeq %s)' % L.lst(pyobs.pyv(v) for v in vs)
-        cells = list(ocol)
+        cells = [plain(c) for c in ocol]
         lits = [pyobs.val(c) for c in cells]
         return ocol, cells, '(OCol %s %s)' % (opd['kind'], L.lst(lits))
 
@@ -351,10 +401,14 @@ class C13:
         target = self._target(assign, 'c')
         raw0 = list(col)
         # a derived column whose cells are NumPy scalars (col @ np.abs): the cells are judged as the numbers they stand for
-        relaxed = has_np(raw0)
+        relaxed = has_np(raw0) or (ocol is not None and has_np(list(ocol)))
         cells0 = [plain(v) for v in raw0]
         ids0 = [int(i) for i in col._rowid]
+        if ocol is not None and kind_of(ocol) != inp['operand']['kind']:
+            return None
         x, xvals, o_lit = self._operand(inp, ocol)
+        if inp['operand']['t'] == 'col' and any(pyobs.val(c) is None for c in xvals):
+            return None                     # a derived operand column holding cells outside the classified universe
         xsnap = list(xvals)
         c_lit = col_lit(kind, ids0, cells0)
         if c_lit is None:
@@ -433,7 +487,7 @@ class C13:
                 or [int(i) for i in col._rowid] != ids0:
             pyfail = pyfail or 'the column operand was changed by the operation'
         if inp['operand']['t'] == 'col':
-            now = list(ocol)
+            now = [plain(v) for v in ocol]
         elif inp['operand']['t'] == 'seq':
             now = list(x)
         else:
@@ -464,6 +518,7 @@ class C13:
             'oracle_vec': vec, 'nontrivial': nontrivial, 'sig': json.dumps(inp, sort_keys=True),
             'tags': [kind, op, 'x_o_col' if refl else 'col_o_x', 'operand:' + self._opclass(inp['operand']),
                      'order:' + inp.get('order', ['natural'])[0], 'rows:%d' % len(cells0)] + (['derived_column'] if inp.get('pre') else []) + (
+                     ['derived_operand_column'] if inp['operand'].get('pre') else []) + (
                      ['numpy_cells'] if relaxed else []) + (
                      ['family:' + inp['family']] if inp.get('family') else []) + (
                      ['assign:' + assign] if assign else []) + [
@@ -614,6 +669,12 @@ class C13:
         if opd['t'] == 'col':
             dm.o = FloatColumn if opd['kind'] == 'KFloat' else IntColumn
             dm.o = [pyobs.dec(v) for v in opd['vs']]
+        if opd['t'] == 'series' and not opd.get('same'):
+            # the other operand is a series column of the same table (plain, or derived like the column operand)
+            orows = [[pyobs.dec(v) for v in row] for row in opd['vss']]
+            dm.t = SeriesColumn(depth=len(orows[0]) if orows else depth)
+            for i, row in enumerate(orows):
+                dm.t[i] = row
         order = inp.get('order', ['natural'])
         if order[0] == 'reversed':
             dm = dm[list(range(n - 1, -1, -1))]
@@ -630,16 +691,48 @@ class C13:
         target = self._target(assign, 's')
         col = dm.s
         ocol = dm.o if opd['t'] == 'col' else None
-        # column-level slices / index lists: the series column stays attached to the (longer) table
-        if order[0] == 'colslice':
-            col = col[list(order[1])]
-            ocol = ocol[list(order[1])] if ocol is not None else None
-        elif order[0] == 'colrange':
-            col = col[order[1]:order[2]]
-            ocol = ocol[order[1]:order[2]] if ocol is not None else None
+        scol = dm.t if (opd['t'] == 'series' and not opd.get('same')) else None
+        # a DERIVED series column: the result of col @ f / map_(f, col) (f returning bool / int / float32 arrays, Python
+        # lists), of another operator, of a series function, of a sample slice -- used directly, never assigned
+        def cut(c):
+            # column-level slices / index lists: the series column stays attached to the (longer) table
+            if c is None:
+                return None
+            if order[0] == 'colslice':
+                return c[list(order[1])]
+            if order[0] == 'colrange':
+                return c[order[1]:order[2]]
+            return c
+        # slice_first: the DETACHED SLICE is mapped (pending finding, INCLUDE_PENDING_SERIES_MAP_SLICE); otherwise the
+        # whole column is derived and the derived column is sliced
+        slice_first = bool(inp.get('slice_first'))
+        if slice_first:
+            col, ocol, scol = cut(col), cut(ocol), cut(scol)
+        derive_fail = None
+        try:
+            if inp.get('pre'):
+                col, derive_fail = self._apply_series_pre(col, inp['pre'])
+            if scol is not None and opd.get('pre') and derive_fail is None:
+                scol, derive_fail = self._apply_series_pre(scol, opd['pre'])
+        except Exception as e:      # noqa: BLE001 -- the implementation refused to derive the column: judged, not a crash
+            derive_fail = 'deriving the series column (%r) raised %r' % (inp.get('pre'), e)
+        if derive_fail is not None:
+            return {'input': inp, 'observed': {'derive': derive_fail}, 'pyfail': derive_fail, 'oracle': 'true', 'model': 'true',
+                    'nontrivial': True, 'sig': json.dumps(inp, sort_keys=True),
+                    'tags': ['Series', 'family:' + inp.get('family', ''), 'derive-failed']}
+        if not slice_first:
+            col, ocol, scol = cut(col), cut(ocol), cut(scol)
+        if opd['t'] == 'series' and opd.get('same'):
+            scol = col
         if not isinstance(col, _SeriesColumn):
             return None
         n = len(col)
+        depth = int(col.depth)
+        if col._seq.ndim != 2 or col._seq.shape != (n, depth) or len(col._rowid) != n:
+            pf = 'the series column has %d rows and depth %d but its samples have the shape %r' % (n, depth, col._seq.shape)
+            return {'input': inp, 'observed': {'shape': list(col._seq.shape)}, 'pyfail': pf, 'oracle': 'true', 'model': 'true',
+                    'nontrivial': True, 'sig': json.dumps(inp, sort_keys=True),
+                    'tags': ['Series', 'family:' + inp.get('family', ''), 'derive-failed']}
         rows0 = [[float(v) for v in col._seq[i]] for i in range(n)]
         ids0 = [int(i) for i in col._rowid]
 
@@ -661,6 +754,13 @@ class C13:
             vs = list(ocol)
             o_lit = '(SVec %s)' % L.lst(numlit(v) for v in vs)
             snap = list(vs)
+        elif opd['t'] == 'series':
+            x = scol
+            if not isinstance(x, _SeriesColumn) or x._seq.ndim != 2:
+                return None
+            vss = [[float(v) for v in x._seq[i]] for i in range(len(x))]
+            o_lit = '(SMat %s)' % L.lst(L.lst(numlit(v) for v in row) for row in vss)
+            snap = [v for row in vss for v in row]
         else:
             vss = [[pyobs.dec(v) for v in row] for row in opd['vss']]
             x = np.array(vss, dtype=float) if opd.get('as') == 'array' else [list(r) for r in vss]
@@ -714,6 +814,8 @@ class C13:
             after = [x]
         elif opd['t'] == 'vec':
             after = list(x)
+        elif opd['t'] == 'series':
+            after = [float(v) for i in range(len(x)) for v in x._seq[i]]
         else:
             after = [v for row in x for v in row]
         if [L.fl(float(v)) for v in after] != [L.fl(float(v)) for v in snap]:
@@ -730,8 +832,119 @@ class C13:
                      ('_per_row' if opd['t'] == 'vec' and len(opd['vs']) == n else '_per_sample' if opd['t'] == 'vec' else ''),
                      'series_rows_eq_depth' if n == depth else 'series_rows_ne_depth',
                      'order:' + order[0], 'outcome:' + ('raise' if out[0] == 'exn' else 'ok')] + (
-                     ['family:' + inp['family']] if inp.get('family') else []) + (['assign:' + assign] if assign else []),
+                     ['family:' + inp['family']] if inp.get('family') else []) + (['assign:' + assign] if assign else []) + (
+                     ['derived_series'] + ['derived_by:' + self._pre_name(st) for st in inp['pre']] if inp.get('pre') else []) + (
+                     ['operand_derived_by:' + self._pre_name(st) for st in opd.get('pre') or []]) + (
+                     ['operand:the_same_series_object'] if opd.get('same') else []),
         }
+
+    @staticmethod
+    def _pre_name(st):
+        if st['k'] == 'map':
+            return '%s:%s' % (st.get('via', 'matmul'), st['f'])
+        if st['k'] == 'op':
+            return 'operator:' + ('x%scol' if st.get('refl') else 'col%sx') % SYM[st['op']]
+        return st['k'] + (':' + st['f'] if st.get('f') else '')
+
+    def _apply_series_pre(self, col, pre):
+        """derive a series column from the series column col, step by step; -> (column, None) or (None, what is wrong
+        with a mapped column: `col @ f` / map_(f, col) must have the rows of col and hold f(cell_i))
+           {'k': 'map', 'f': name in SFUNCS, 'via': 'matmul' | 'map_'}
+           {'k': 'op', 'op': .., 'refl': .., 'x': encoded scalar}          the result of another operator
+           {'k': 'fn', 'f': 'endlock' | 'window' | 'downsample', ...}      the result of a series function
+           {'k': 'samples', 'a': .., 'b': ..}                              col[:, a:b]"""
+        from datamatrix import functional as fnc, series as srs
+        from datamatrix._datamatrix._seriescolumn import _SeriesColumn
+        for st in pre:
+            if st['k'] == 'map':
+                f = SFUNCS[st['f']][0]
+                src_rows = [np.array(col._seq[i], dtype=float) for i in range(len(col))]
+                src_ids = [int(i) for i in col._rowid]
+                r = fnc.map_(f, col) if st.get('via') == 'map_' else (col @ f)
+                if not isinstance(r, _SeriesColumn):
+                    return None, 'mapping %s over a series column gives a %s' % (st['f'], type(r).__name__)
+                if len(r) != len(src_rows) or [int(i) for i in r._rowid] != src_ids:
+                    return None, ('the column mapped with %s has %d rows (ids %r), the source has %d (ids %r)' % (
+                        st['f'], len(r), [int(i) for i in r._rowid], len(src_rows), src_ids))
+                for i, row in enumerate(src_rows):
+                    want = np.asarray(f(row), dtype=float)
+                    got = np.asarray(r[i], dtype=float)
+                    if want.shape != got.shape or not np.array_equal(want, got, equal_nan=True):
+                        return None, 'row %d of col @ %s holds %r, f(cell) is %r' % (i, st['f'], got.tolist(), want.tolist())
+                col = r
+            elif st['k'] == 'op':
+                v = pyobs.dec(st['x'])
+                col = PYOP[st['op']](v, col) if st.get('refl') else PYOP[st['op']](col, v)
+            elif st['k'] == 'fn':
+                if st['f'] == 'endlock':
+                    col = srs.endlock(col)
+                elif st['f'] == 'window':
+                    col = srs.window(col, start=st['a'], end=st['b'])
+                elif st['f'] == 'downsample':
+                    col = srs.downsample(col, st['by'])
+                else:
+                    raise AssertionError(st)
+            elif st['k'] == 'samples':
+                col = col[:, st['a']:st['b']]
+            else:
+                raise AssertionError(st)
+        return col, None
+
+    def _series_pre_steps(self, rng, depth, keep_depth):
+        """-> (steps, depth of the derived column).  The first step is mostly a map with a function that does not
+        return a float64 array"""
+        steps = []
+        for i in range(rng.choice([1, 1, 1, 2])):
+            c = rng.random()
+            if c < 0.7 or (i == 0 and c < 0.8):
+                f = rng.choice(SFUNCS_SAME_DEPTH if (keep_depth or rng.random() < 0.8) else ['half_depth', 'twice_depth'])
+                steps.append({'k': 'map', 'f': f, 'via': rng.choice(['matmul', 'map_'])})
+                depth = SFUNCS[f][1](depth)
+            elif c < 0.85:
+                opn = rng.choice(['Mul', 'Add', 'Sub'])
+                steps.append({'k': 'op', 'op': opn, 'refl': rng.random() < 0.5, 'x': pyobs.enc(rng.choice([2, -1, 0.5, 1, 3]))})
+            elif c < 0.92 or keep_depth or depth < 3:
+                steps.append({'k': 'fn', 'f': 'endlock'})
+            elif c < 0.96:
+                a = rng.randint(0, depth - 2)
+                b = rng.randint(a + 2, depth)
+                steps.append({'k': rng.choice(['samples', 'fn']), 'f': 'window', 'a': a, 'b': b})
+                if steps[-1]['k'] == 'samples':
+                    del steps[-1]['f']
+                depth = b - a
+            else:
+                steps.append({'k': 'fn', 'f': 'downsample', 'by': 2})
+                depth = depth // 2
+        return steps, depth
+
+    def _derived_series_case(self, rng, op, refl, form, order):
+        """arithmetic on a DERIVED series column (never assigned to the table in between), as left and right operand, with
+        scalar / per-row / per-sample / matrix / Float- / IntColumn operands and with another series column (plain, derived
+        the same way, or the very same object: mapped + mapped)"""
+        base_form = 'mat' if form in ('series', 'series_derived', 'same') else form
+        inp = self._series_case(rng, op, refl, base_form, order)
+        depth = inp['depth']
+        keep = base_form in ('vec_sample', 'mat') and form != 'same'
+        # per-row vs per-sample is decided by the lengths: a depth-changing derivation could turn one into the other
+        keep = keep or base_form == 'vec_row'
+        inp['pre'], d2 = self._series_pre_steps(rng, depth, keep)
+        if d2 < 2:
+            inp['pre'], d2 = [{'k': 'map', 'f': 'rank', 'via': 'matmul'}], depth
+        if form in ('series', 'series_derived'):
+            opd = {'t': 'series', 'vss': [[pyobs.enc(float(pyobs.dec(v))) for v in row] for row in inp['operand']['vss']]}
+            # the operand series has one row per table row (the column-level slice is taken from both)
+            nrows = len(inp['rows'])
+            while len(opd['vss']) < nrows:
+                opd['vss'].append(list(opd['vss'][rng.randrange(len(opd['vss']))]))
+            if form == 'series_derived':
+                opd['pre'], _d = self._series_pre_steps(rng, depth, True)
+            inp['operand'] = opd
+        elif form == 'same':
+            inp['operand'] = {'t': 'series', 'same': True}
+        if INCLUDE_PENDING_SERIES_MAP_SLICE and inp['order'][0] in ('colslice', 'colrange') and rng.random() < 0.5:
+            inp['slice_first'] = True
+        inp['family'] = 'derived_series'
+        return inp
 
     def _series_case(self, rng, op, refl, form, order):
         n = rng.choice([2, 3, 4])
@@ -1122,6 +1335,20 @@ class C13:
                     o['cells'] = [fix(e) for e in o['cells']]
             if not inp['pre']:
                 inp['pre'] = [{'k': 'map', 'f': 'np_scalar', 'via': 'matmul'}]
+        o = inp['operand']
+        if o['t'] == 'col' and rng.random() < 0.6:
+            # the operand column is derived too (and, one time in four, only the operand column)
+            o['pre'] = [st for st in self._pre_steps(rng, o['kind'], m)
+                        if not (op == 'Pow' and st.get('f') == 'np_neg')
+                        and not (st['k'] == 'op' and st['op'] != 'Mul')]          # divisors stay non-zero
+            if op == 'Pow':
+                # the operand column holds the exponents: no step that changes their sign (a NumPy integer to a negative
+                # integer power is refused by NumPy, see INCLUDE_PENDING_NP_NEGPOW)
+                o['pre'] = [{'k': 'map', 'f': rng.choice(['np_scalar', 'np_abs']), 'via': rng.choice(['matmul', 'map_'])}]
+            if not o['pre']:
+                o['pre'] = [{'k': 'map', 'f': 'np_scalar', 'via': 'matmul'}]
+            if rng.random() < 0.25 and not (op == 'Pow' and kind == 'KMixed'):
+                del inp['pre']
         inp['family'] = 'derived'
         return inp
 
@@ -1385,6 +1612,17 @@ class C13:
                         for _ in range((2 if kind == 'KMixed' else 1) if tier == 'quick' else 6):
                             add(self._derived_case(rng, kind, op, refl, form, rng.choice(orders + ['colslice']),
                                                    rng.choice([3, 4, 6])))
+        # the operation applied directly to a DERIVED SERIES column: col @ f / map_(f, col) with f returning bool / int /
+        # float32 arrays or Python lists, results of other operators, of series functions, sample slices -- as left and
+        # right operand with scalars, per-row, per-sample, matrix, column operands and other series columns
+        sforms = ['scalar', 'vec_row', 'vec_sample', 'mat', 'series', 'series_derived', 'same', 'same']
+        for op in OPS:
+            for refl in (False, True):
+                for form in sforms + ([] if refl else ['col_KFloat', 'col_KInt']):
+                    for order in (['natural', rng.choice(['reversed', 'perm', 'sorted']), rng.choice(['colslice', 'colrange'])]
+                                  if tier == 'quick' else orders + ['colslice', 'colrange']):
+                        for _ in range(1 if tier == 'quick' else 4):
+                            add(self._derived_series_case(rng, op, refl, form, order))
         # col @ f / map_(f, col) over cells that are equal but distinguishable (+0.0 / -0.0, 3 / 3.0)
         for kind in ('KFloat', 'KMixed'):
             for fname in SIGN_FUNCS:
